@@ -584,7 +584,7 @@ func recipeMalformed(c *ctx) {
 			expectedReadDiags(c.info, bad, full, short)
 			got := fullSet(fr.Diags)
 			short = full
-			ok := dsetStr(got) == dsetStr(full)
+			ok := dsetStr(got) == dsetStr(full) && fr.Dups == 0 // each problem reported once
 			for _, d := range fr.Diags {
 				if strings.Contains(d.Kind, "!") || d.Sev != "Error" {
 					ok = false
@@ -657,6 +657,11 @@ func recipeMalformed(c *ctx) {
 		what := ""
 		if !ok {
 			what = fmt.Sprintf("%d types removed: diagnostics %s, expected %s", removed, dsetStr(got), dsetStr(short))
+		} else if tr.Dups != 0 {
+			// "as one error diagnostic naming the field": a type missing from an element type is reported once,
+			// however many elements reach it
+			ok = false
+			what = fmt.Sprintf("%d types removed: %d diagnostics for %d distinct problems (%s)", removed, len(tr.Diags)+tr.Dups, len(got), dsetStr(got))
 		}
 		if ok {
 			_, t0 := c.To("malformed-to-ref", v, EmptyOf(c.objTy))
@@ -685,7 +690,7 @@ func recipeMalformed(c *ctx) {
 				c.Oracle("C06", id3, false, "panic-to", "CopyTo panicked on a populated target with attribute types removed: "+tp.Panic)
 			} else {
 				got := fullSet(tp.Diags)
-				okp := dsetStr(got) == dsetStr(full)
+				okp := dsetStr(got) == dsetStr(full) && tp.Dups == 0
 				whatp := ""
 				if !okp {
 					whatp = fmt.Sprintf("populated target, %d types removed: diagnostics %s, expected %s", removed, dsetStr(got), dsetStr(full))
